@@ -1,4 +1,5 @@
 import PytaskProofs.Lemmas.EngineScratch
+import PytaskProofs.Lemmas.EngineExit
 import PytaskProofs.Lemmas.EngineExample
 /-!
 # C02 — an incremental build leaves what a from-scratch build would leave
@@ -145,6 +146,25 @@ theorem C02_success (F : BodyFn) (P : Project) (cfg : Cfg) (w : World) (picks : 
       ∃ v, lookup r.w.fs p = some v ∧ Scratch F P r.w.fs p v :=
   fun t ht => C02_partial F P cfg w picks r hwf hbt hhist h hdry t ht (fun u hu _ => hall u hu)
 
+/-- **C02_exit0** (through the exit code). A non-dry build that ran to its natural end with exit
+code 0, skipped nothing and persisted nothing, over a project without `persist` marks, leaves in
+every declared product of every task its from-scratch content. -/
+theorem C02_exit0 (F : BodyFn) (P : Project) (cfg : Cfg) (w : World) (picks : List Nat) (r : Result)
+    (hwf : WF P) (hbt : BodiesTotal P) (hhist : History F P w)
+    (h : build F P cfg w picks = .ok r) (hexit : r.exit = 0) (hcomplete : r.complete = true)
+    (hdry : cfg.dry = false)
+    (hnoskip : ∀ e ∈ r.reports, e.2 ≠ Outcome.skip) (hnopersist : ∀ e ∈ r.reports, e.2 ≠ Outcome.persistence)
+    (hmarks : ∀ u ∈ P.tasks, u.persist = false) :
+    ∀ t ∈ P.tasks, ∀ p i, (p, i) ∈ t.prods.zipIdx →
+      ∃ v, lookup r.w.fs p = some v ∧ Scratch F P r.w.fs p v := by
+  apply C02_success F P cfg w picks r hwf hbt hhist h hdry
+  intro u hu
+  refine ⟨hmarks u hu, ?_⟩
+  rcases all_good_of_exit0 hwf h hexit hcomplete hdry hnoskip u hu with h1 | h1 | h1
+  · exact Or.inl h1
+  · exact absurd rfl (hnopersist _ h1)
+  · exact Or.inr h1
+
 /-- **C02_vs_fresh_build.** The same statement without the specification: an incremental build
 (after any history) and *any other* build — e.g. a real from-scratch build: empty state table,
 products deleted — that both report `t` and its upstream tasks as SUCCESS / SKIP_UNCHANGED and whose
@@ -187,6 +207,16 @@ example : ∀ t ∈ exP.tasks, ∀ p i, (p, i) ∈ t.prods.zipIdx →
   rcases mem_exP hu with rfl | rfl
   · exact ⟨rfl, Or.inr (by decide)⟩
   · exact ⟨rfl, Or.inl (by decide)⟩
+
+/-- The same through `C02_exit0` (exit code 0, complete, nothing skipped or persisted). -/
+example : ∀ t ∈ exP.tasks, ∀ p i, (p, i) ∈ t.prods.zipIdx →
+    ∃ v, lookup exR3.w.fs p = some v ∧ Scratch exF exP exR3.w.fs p v := by
+  have exHistory3 : History exF exP exW3 :=
+    History.edit _ (History.build {} [0, 1] exR2
+      (History.edit _ (History.build {} [0, 1] exR1 (History.init _) exBuild1)) exBuild2)
+  refine C02_exit0 exF exP {} exW3 [0, 1] exR3 exWF exBT exHistory3 exBuild3 rfl rfl rfl (by decide) (by decide) ?_
+  intro u hu
+  rcases mem_exP hu with rfl | rfl <;> rfl
 
 /-- … which are these concrete numbers (input 6, modules 1 and 3). -/
 example : lookup exR3.w.fs 20 = some 7 ∧ lookup exR3.w.fs 21 = some 1010 ∧ lookup exR3.w.fs 22 = some 1110 := by
